@@ -440,6 +440,67 @@ fn scalars64(quick: bool) -> Vec<u64> {
     v
 }
 
+/// Nibble words (symbolic chain check only; a small selection also goes through the real
+/// multiplications): the chain builder consumes 4 bits per pair of opcodes, so words made of
+/// odd nibbles are its longest chains.
+fn nibble_words(quick: bool) -> (Vec<u64>, Vec<u64>) {
+    let mut v: Vec<u64> = vec![];
+    let mut sel: Vec<u64> = vec![];
+    // EVERY 16-nibble word over {1, 9}; every word whose 8
+    // top nibbles range over {1, 7, 9, F} above a constant tail of 1s or 9s; every top nibble
+    // above fifteen equal odd nibbles; thorough: every word over {1, 9, F}.
+    for code in 0..1u64 << 16 {
+        let mut k = 0u64;
+        for i in 0..16 {
+            k |= (if (code >> i) & 1 == 1 { 9 } else { 1 }) << (4 * i);
+        }
+        v.push(k);
+    }
+    for tail in [0x1111_1111u64, 0x9999_9999, 0x7777_7777, 0xFFFF_FFFF] {
+        for code in 0..1u64 << 16 {
+            let mut k = tail;
+            for i in 0..8 {
+                let nib = [1u64, 7, 9, 15][((code >> (2 * i)) & 3) as usize];
+                k |= nib << (32 + 4 * i);
+            }
+            v.push(k);
+        }
+    }
+    for top in 0..16u64 {
+        for low in [1u64, 3, 5, 7, 9, 11, 13, 15] {
+            let mut k = top << 60;
+            for i in 0..15 {
+                k |= low << (4 * i);
+            }
+            v.push(k);
+            sel.push(k);
+        }
+    }
+    if !quick {
+        let mut code = vec![0u8; 16];
+        loop {
+            let mut k = 0u64;
+            for i in 0..16 {
+                k |= [1u64, 9, 15][code[i] as usize] << (4 * i);
+            }
+            v.push(k);
+            let mut i = 0;
+            while i < 16 {
+                code[i] += 1;
+                if code[i] < 3 {
+                    break;
+                }
+                code[i] = 0;
+                i += 1;
+            }
+            if i == 16 {
+                break;
+            }
+        }
+    }
+    (v, sel)
+}
+
 fn scalars1024(quick: bool) -> Vec<W> {
     let mut v: Vec<W> = vec![W::ZERO, W::ONE, W::TWO];
     for i in 0..1024u32 {
@@ -669,6 +730,38 @@ pub fn run(ctx: &Ctx) -> Report {
         }
         rep.evaluations += ks64.len() as u64;
     }
+    let (nib_all, nib_sel) = nibble_words(ctx.quick());
+    {
+        // nibble words: symbolic check of every word (no watchdog: the base list has one)
+        let bad: Vec<(String, String)> = nib_all
+            .par_chunks(4096)
+            .flat_map(|ch| {
+                let mut out = vec![];
+                for &k in ch {
+                    match guarded(|| ea::addition_chain(k)) {
+                        Err(e) => out.push((format!("op=addition_chain;what=panic;site={}", e.site), format!("make_addition_chain({:#x}) panicked: {}", k, e.short()))),
+                        Ok(c) => {
+                            let v = eval_chain(&c);
+                            let ok_ops = c.iter().all(|&op| if op % 2 == 0 { op >= 0 } else { op.abs() <= 7 });
+                            if v != Some(W::from_digit(k)) || c.len() > 32 || !ok_ops {
+                                out.push(("op=addition_chain;what=wrong".into(), format!("make_addition_chain({:#x}) = {:?} evaluates to {:?}", k, c, v)));
+                            }
+                        }
+                    }
+                    if out.len() > 4 {
+                        break;
+                    }
+                }
+                out
+            })
+            .collect();
+        let nbad = bad.len();
+        for (k, w) in bad.into_iter().take(4) {
+            rep.violation(k, format!("{w} [{nbad} or more nibble words fail]"), J::obj(vec![("case", J::s(w))]));
+        }
+        rep.evaluations += nib_all.len() as u64;
+        rep.set("nibble_words", J::from(nib_all.len()));
+    }
     {
         // long chains: the listed 1024-bit scalars plus ALL 2^i + 2^j (and 3*, 5* low parts)
         let mut all: Vec<W> = (*ks1024).clone();
@@ -732,7 +825,7 @@ pub fn run(ctx: &Ctx) -> Report {
     moduli.push(vec![top[0]]);
     let jobs: Vec<(usize, Option<u32>)> = (0..moduli.len()).flat_map(|i| [(i, None), (i, Some(2u32)), (i, Some(7))]).collect();
     let sub1024: Arc<Vec<W>> = Arc::new(if ctx.quick() { ks1024.iter().step_by(7).cloned().collect() } else { (*ks1024).clone() });
-    let sub64: Arc<Vec<u64>> = Arc::new(if ctx.quick() { ks64.iter().step_by(3).cloned().chain(ks64.iter().rev().take(80).cloned()).collect() } else { (*ks64).clone() });
+    let sub64: Arc<Vec<u64>> = Arc::new(if ctx.quick() { ks64.iter().step_by(3).cloned().chain(ks64.iter().rev().take(80).cloned()).chain(nib_sel.iter().cloned()).collect() } else { ks64.iter().cloned().chain(nib_sel.iter().cloned()).collect() });
     let ts: Vec<Tally> = jobs
         .par_iter()
         .map(|&(i, seed)| {
@@ -760,7 +853,7 @@ pub fn run(ctx: &Ctx) -> Report {
     rep.sample(J::obj(vec![("field", J::s("F_101")), ("curve", J::s("Curve::from_point(3,4) and Suyama11 seeds 2..40")), ("pairs", J::s("all (P,Q)"))]));
     rep.sample(J::obj(vec![("scalar64", J::s(u64::MAX)), ("routines", J::s("scalar64_chainmul, scalar64_mul_dbladd, ecm128::scalar64_mul"))]));
     rep.sample(J::obj(vec![("scalar1024", J::s("2^74 + 2^20")), ("routine", J::s("make_addition_chain_long (symbolic) / scalar1024_chainmul"))]));
-    rep.rule = format!("(1) for every prime field F_q, 7 <= q <= {}: every curve Curve::from_point(x,y), (x,y) in [2,5]^2, and (q >= 101) every constructible Suyama-11 curve for seeds 2..40; ALL affine points enumerated by brute force (states) and ALL pairs (P,Q) (transitions), with varying projective representatives: add, sub (unified: right whenever the affine law is defined), double, dblext, to_extended (same point, on the quadric), is_valid, addext/addextproj/subextproj (right on every generic pair and whenever they do not degenerate), and for twisted curves the 128-bit implementation (add, dbladd, double, dblext) against the textbook affine law with explicit inversion; (2) addition chains interpreted symbolically: every listed 64-bit scalar (0..2048/4096, 2^i, 2^i+-1, all-ones, patterns, the 64 largest values, every smoothness-base block of the strategy B1 values) and every listed 1024-bit scalar plus ALL 2^i+2^j (quick: every third i): the opcode list must evaluate to k and fit its buffer, under a watchdog; (3) scalar64_chainmul, scalar64_mul_dbladd, ecm128::scalar64_mul and scalar1024_chainmul on prime and composite (CRT, 1,2,3,4,6,8 words) moduli for both curve families against an independent affine double-and-add.", qmax);
+    rep.rule = format!("(1) for every prime field F_q, 7 <= q <= {}: every curve Curve::from_point(x,y), (x,y) in [2,5]^2, and (q >= 101) every constructible Suyama-11 curve for seeds 2..40; ALL affine points enumerated by brute force (states) and ALL pairs (P,Q) (transitions), with varying projective representatives: add, sub (unified: right whenever the affine law is defined), double, dblext, to_extended (same point, on the quadric), is_valid, addext/addextproj/subextproj (right on every generic pair and whenever they do not degenerate), and for twisted curves the 128-bit implementation (add, dbladd, double, dblext) against the textbook affine law with explicit inversion; (2) addition chains interpreted symbolically: every listed 64-bit scalar (0..2048/4096, 2^i, 2^i+-1, all-ones, patterns, the 64 largest values, EVERY 16-nibble word over the alphabet 1,9 (thorough: 1,9,F), every word with the 8 top nibbles over 1,7,9,F above four constant tails, every top nibble above 15 equal odd nibbles, every smoothness-base block of the strategy B1 values) and every listed 1024-bit scalar plus ALL 2^i+2^j (quick: every third i): the opcode list must evaluate to k and fit its buffer, under a watchdog; (3) scalar64_chainmul, scalar64_mul_dbladd, ecm128::scalar64_mul and scalar1024_chainmul on prime and composite (CRT, 1,2,3,4,6,8 words) moduli for both curve families against an independent affine double-and-add.", qmax);
     rep.assumptions.push("reference: affine (twisted) Edwards law over F_q with u128 arithmetic; composite moduli checked componentwise".into());
     rep
 }
